@@ -51,6 +51,7 @@ var rules = map[string]*rule{
 	"golang.org/x/sync/errgroup": {"verif/shim/verrgroup", "verrgroup", set("Group", "WithContext")},
 	"math/rand":                  {"verif/shim/vrand", "vrand", randFuncs},
 	"math/rand/v2":               {"verif/shim/vrand", "vrand", randFuncs},
+	"net":                        {"verif/shim/vnet", "vnet", set("Dialer")},
 }
 
 // unsupported selectors of instrumented packages: fail loudly rather than run un-modelled code
@@ -234,6 +235,8 @@ func instrumentFile(path string, src []byte, opt options) ([]byte, bool, error) 
 			fmt.Fprintf(&keep, "var _ = %s.New\n", name)
 		case "math/rand/v2":
 			fmt.Fprintf(&keep, "var _ = %s.New\n", name)
+		case "net":
+			fmt.Fprintf(&keep, "var _ %s.IP\n", name)
 		}
 	}
 	idx := strings.Index(out, "\npackage ")
